@@ -141,7 +141,11 @@ type pkgCtx struct {
 	file     *ast.File
 	usedRT   bool
 	keepTime bool
-	funcName string
+	// keepRuntime / keepSync: the rewrite may have removed the last use of the
+	// import
+	keepRuntime bool
+	keepSync    bool
+	funcName    string
 }
 
 func doPackage(dir string, on map[string]bool) error {
@@ -192,6 +196,14 @@ func doPackage(dir string, on map[string]bool) error {
 			continue
 		}
 		addImport(f, "verif/simrt", "simrt")
+		if c.keepRuntime {
+			f.Decls = append(f.Decls, &ast.GenDecl{Tok: token.VAR, Specs: []ast.Spec{&ast.ValueSpec{
+				Names: []*ast.Ident{ast.NewIdent("_")}, Values: []ast.Expr{sel("runtime", "NumCPU")}}}})
+		}
+		if c.keepSync {
+			f.Decls = append(f.Decls, &ast.GenDecl{Tok: token.VAR, Specs: []ast.Spec{&ast.ValueSpec{
+				Names: []*ast.Ident{ast.NewIdent("_")}, Type: sel("sync", "Mutex")}}})
+		}
 		if c.keepTime {
 			// time.Now & co. were the only uses of the import in some files
 			f.Decls = append(f.Decls, &ast.GenDecl{Tok: token.VAR, Specs: []ast.Spec{&ast.ValueSpec{
@@ -258,6 +270,22 @@ func (c *pkgCtx) isMap(e ast.Expr) bool {
 }
 
 func (c *pkgCtx) rewriteFile() {
+	if c.on["lock"] {
+		// sync.WaitGroup -> simrt.WaitGroup wherever the type is named
+		ast.Inspect(c.file, func(n ast.Node) bool {
+			se, ok := n.(*ast.SelectorExpr)
+			if !ok {
+				return true
+			}
+			if id, ok := se.X.(*ast.Ident); ok && se.Sel.Name == "WaitGroup" && c.pkgOf(id) == "sync" {
+				newSite("waitgroup", c.fset, se.Pos(), "", "")
+				id.Name = "simrt"
+				c.usedRT = true
+				c.keepSync = true
+			}
+			return true
+		})
+	}
 	for _, d := range c.file.Decls {
 		switch d := d.(type) {
 		case *ast.FuncDecl:
@@ -559,6 +587,13 @@ func (c *pkgCtx) call(e *ast.CallExpr) ast.Expr {
 				newSite("clock", c.fset, e.Pos(), c.funcName, se.Sel.Name)
 				return rtCall(se.Sel.Name, e.Args...)
 			}
+		case "runtime":
+			if c.on["lock"] && (se.Sel.Name == "GOMAXPROCS" || se.Sel.Name == "NumCPU") {
+				c.usedRT = true
+				c.keepRuntime = true
+				newSite("cpus", c.fset, e.Pos(), c.funcName, se.Sel.Name)
+				return rtCall(se.Sel.Name, e.Args...)
+			}
 		case "math/rand", "math/rand/v2":
 			if c.on["rand"] {
 				warnings = append(warnings, fmt.Sprintf("%s: math/rand call %s is outside the seams; covered only by cross-process repetition", c.fset.Position(e.Pos()), se.Sel.Name))
@@ -599,7 +634,7 @@ func (c *pkgCtx) call(e *ast.CallExpr) ast.Expr {
 					}
 					return rtCall("OnceDo", arg, e.Args[0], intLit(sid))
 				}
-			case "(*sync.Cond).Wait", "(*sync.WaitGroup).Wait":
+			case "(*sync.Cond).Wait":
 				if c.on["lock"] {
 					c.refuse(e.Pos(), full)
 				}
